@@ -14,7 +14,7 @@ RULE = {"C19": "four helpers, each driven by random sample sequences under the p
                "timeouts n/1e6 for whole-microsecond n, landings exactly on the timeout).  Non-trivial = sequence with >=2 "
                "state changes / True results / passed low-level records / expiry flips; distinct = hash of the sequence."}
 RULE["C19"] += '  Also: two Toggle / ButtonDebouncer objects on one button sampled in turns, truthy non-bool button levels, cases starting at FPGA time exactly 0.'
-REQUIRED = {"C19": {"toggle-edge-flip": 2000, "toggle-held-no-flip": 2000, "toggle-on-off-pair": 500, "toggle-real-joystick-case": 20, "toggle-two-objects-on-one-button": 100, "debouncer-constructed-default": 20, "debouncer-constructed-keyword": 20, "button-down-while-the-object-is-built": 100, "filter-record-created-at-another-time": 1000, "clock-starts-at-zero": 30, "debouncer-two-objects-on-one-button": 50, "toggle-nonbool-levels": 50,
+REQUIRED = {"C19": {"toggle-edge-flip": 2000, "toggle-held-no-flip": 2000, "toggle-on-off-pair": 500, "toggle-real-joystick-case": 20, "toggle-two-objects-on-one-button": 100, "debouncer-constructed-default": 20, "debounce-period-changed-while-in-use": 50, "debouncer-constructed-keyword": 20, "button-down-while-the-object-is-built": 100, "filter-record-created-at-another-time": 1000, "clock-starts-at-zero": 30, "debouncer-two-objects-on-one-button": 50, "toggle-nonbool-levels": 50,
                     "toggle-debounce-flip": 300, "toggle-debounce-suppressed-edge": 100,
                     "debouncer-true": 1000, "debouncer-suppressed-press": 1000, "debouncer-required-true": 300, "debouncer-exact-strict": 30,
                     "filter-bypass-pass": 1000, "filter-low-pass": 500, "filter-low-suppressed": 1000, "filter-through-real-logger": 50,
@@ -234,6 +234,13 @@ def run_debouncer(acc, case):
         adv, level, accessor = smp[:3]
         which = smp[3] if len(smp) > 3 and case.get("twin") else 0
         d, S = objs[which], st[which]
+        pc = (case.get("period_changes") or {}).get(str(i))
+        if pc is not None:
+            # set_debounce_period() while in use: from now on the new period is the one in force (for every object here)
+            period = pc
+            for o_ in objs:
+                o_.set_debounce_period(pc / 1e6)
+            acc.ev("debounce-period-changed-while-in-use")
         last_true = S["last_true"]
         tag = f"debouncer #{which} of 2, " if case.get("twin") else ""
         if adv:
@@ -542,6 +549,10 @@ def gen_case(rng, kind):
                 s[0] = p if rng.random() < 0.6 else p + rng.choice([-1, 1]) if not grid else p   # land on the period
         c_ = {"kind": "debouncer", "grid": grid, "period_us": p, "period_int": p % 1000000 == 0 and rng.random() < 0.5,
               "via_setter": rng.random() < 0.3, "samples": samples, "ctor": rng.choice(["positional", "positional", "keyword", "default"])}
+        if rng.random() < 0.25:
+            c_["period_changes"] = {str(rng.randrange(1, len(samples))): rng.choice([20000, 250000, 2000000, rng.randrange(1, 1000000)])
+                                    for _ in range(rng.choice([1, 2]))}
+            c_["grid"] = False
         if c_["ctor"] == "default" and not c_["via_setter"]:
             c_["period_us"], c_["period_int"], c_["grid"] = 500000, False, False
             for s_ in samples:
